@@ -232,8 +232,9 @@ func crashClass(stderr string) string {
 			break
 		}
 	}
-	if kind == "data race" && site == "unknown" {
-		// both stacks lie in the harness: a harness bug, never a property violation
+	if kind == "data race" && (site == "unknown" || strings.Contains(stderr, "export_verif.go")) {
+		// one side is the lock-free accessor the harness calls: the harness used it in the wrong mode
+		// (or both stacks lie in the harness): a harness bug, never a property violation
 		return "harness-race"
 	}
 	// numbers in the message (sizes, addresses) would make classes unstable
